@@ -42,6 +42,8 @@ class Definition:
         self.line = d['line']
         self._model = None
         self.error = None
+        self.inv = None
+        self.inv_error = 'no debug stream'
 
     def model(self):
         if self._model is None and self.error is None:
@@ -57,13 +59,46 @@ def load(treehash, config):
     d = facts.gen_facts(treehash, config)
     backend = 'sm' if config.startswith('sm') else 'tail'
     out = []
+    import autlib
     for fn in sorted(os.listdir(d)):
-        if not fn.endswith('.jsonl'):
+        if not fn.endswith('.jsonl') or fn.startswith('nodebug-'):
             continue
+        defs = []
         with open(os.path.join(d, fn)) as f:
             for line in f:
                 line = line.strip()
                 if line:
+                    defs.append(Definition(json.loads(line), backend))
+        # the derive's debug stream of the same rustc run: one block per invocation, in expansion order
+        dbg = os.path.join(d, fn[:-6] + '.debug.txt')
+        invs = None
+        why = 'no debug stream captured for this target'
+        if os.path.exists(dbg):
+            with open(dbg, errors='replace') as f:
+                try:
+                    invs = autlib.split_invocations(f.read())
+                except autlib.ParseError as e:
+                    invs, why = None, 'debug stream not parsable: %s' % e
+        if invs is not None and len(invs) != len(defs):
+            why = '%d derive invocations in the debug stream, %d generated impls' % (len(invs), len(defs))
+            invs = None
+        for i, df in enumerate(defs):
+            df.inv = invs[i] if invs is not None else None
+            df.inv_error = None if invs is not None else why
+        out.extend(defs)
+    return out
+
+
+def load_nodebug(treehash, config):
+    """the corpus expanded WITHOUT the debug feature (full configurations only)"""
+    d = facts.gen_facts(treehash, config)
+    backend = 'sm' if config.startswith('sm') else 'tail'
+    out = []
+    p = os.path.join(d, 'nodebug-corpus.jsonl')
+    if os.path.exists(p):
+        with open(p) as f:
+            for line in f:
+                if line.strip():
                     out.append(Definition(json.loads(line), backend))
     return out
 
